@@ -223,6 +223,7 @@ def pstr_scopes(tier):
         for size in (0, 1, 2, 3, 4, 5, 6, 9):
             q.append(S("pstr", w=w, size=w - 1 + size if size else max(w - 1, 0), chars=2))
         q.append(S("pstr", w=w, size=w + 4, chars=3, bytes=0))
+        q.append(S("pstr", w=w, size=w + 19, chars=1, bytes=0, long=1))
     # prefix maximum: 254/255/256/257 payload bytes behind a u8 prefix, 65534..65537 behind u16
     for pay in (254, 255, 256, 257):
         q.append(S("pstr", w=1, size=1 + pay, chars=1, bytes=0))
@@ -240,13 +241,15 @@ def pstr_scopes(tier):
 def podstr_scopes(tier):
     q = [S("podstr", n=n, chars=2) for n in (0, 1, 2, 3, 4)]
     q += [S("podstr", n=5, chars=2, bytes=0), S("podstr", n=7, chars=3, bytes=0), S("podstr", n=10, chars=3, bytes=0)]
+    # capacities around and beyond 16 with texts of every length up to the capacity and a little more
+    q += [S("podstr", n=n, chars=1, bytes=0, long=1) for n in (10, 16, 17, 20, 33)]
     if tier == "thorough":
         q += [S("podstr", n=n, chars=4, bytes=0, timeout=3000) for n in (3, 4, 5, 7, 10)]
     return q
 
 
 def pod_scopes(tier):
-    return [S("pod", kind=k) for k in (0, 1, 4, 8, 32)]
+    return [S("pod", kind=k) for k in (0, 1, 2, 4, 8, 32)]
 
 
 def rel_str(kind, op, detail):
